@@ -348,7 +348,7 @@ def graph_leg(name, module, tier_env, to_events, what, workers=8, mc_module=None
     return leg
 
 
-def apalache_leg(module, inv, length, what):
+def apalache_leg(module, inv, length, what, init=None):
     """An Apalache lemma over unbounded integers on spec/apalache/<module>.tla. A failure is a
     specification error (exit 2), never a verdict about the code."""
     def leg(ctx):
@@ -356,7 +356,10 @@ def apalache_leg(module, inv, length, what):
         d = tempfile.mkdtemp(prefix='apalache-', dir=scratch)
         shutil.copy(os.path.join(SPEC, 'apalache', module + '.tla'), d)
         t0 = time.time()
-        cmd = ['apalache-mc', 'check', '--length=%d' % length, '--inv=' + inv, '--out-dir=' + os.path.join(d, 'out'), module + '.tla']
+        cmd = ['apalache-mc', 'check', '--length=%d' % length, '--inv=' + inv, '--out-dir=' + os.path.join(d, 'out')]
+        if init:
+            cmd.append('--init=' + init)
+        cmd.append(module + '.tla')
         try:
             p = subprocess.run(cmd, cwd=d, capture_output=True, text=True, timeout=900,
                                env=dict(os.environ, JVM_ARGS='-Xmx4g -Djava.io.tmpdir=' + d))
@@ -366,7 +369,7 @@ def apalache_leg(module, inv, length, what):
         if 'The outcome is: NoError' not in out:
             raise HarnessError('apalache did not prove %s!%s:\n%s' % (module, inv, tail(out, 30)))
         log('[apalache] %s!%s holds (%s) %.1fs' % (module, inv, what, time.time() - t0))
-        return ({'kind': 'mbt', 'info': {'apalache': '%s.tla --inv=%s --length=%d' % (module, inv, length), 'what': what,
+        return ({'kind': 'mbt', 'info': {'apalache': '%s.tla --init=%s --inv=%s --length=%d' % (module, init or 'Init', inv, length), 'what': what,
                                          'outcome': 'NoError', 'secs': round(time.time() - t0, 1)}}, [])
     return leg
 
